@@ -54,6 +54,26 @@ theorem minWeight_iff_mostLikely_iid (P : List ℝ) (hP : ∀ p ∈ P, 0 < p ∧
   have := (hP p hp).2
   linarith
 
+/-- the literal formula of `get_weights`: `w_i = -log((P_i + ε) / (1 - P_i + ε))` for any
+    guard `ε > 0` and marginals `P_i ∈ [0,1]` is minimum-weight ⇔ maximum of the
+    ε-regularised likelihood `Π (P_i+ε)^{c_i} (1-P_i+ε)^{1-c_i}` -/
+theorem minWeight_iff_mostLikely_eps (P : List ℝ) (ε : ℝ) (hε : 0 < ε)
+    (hP : ∀ p ∈ P, 0 ≤ p ∧ p ≤ 1) (S : Set Vec)
+    (hS : ∀ c ∈ S, c.length = P.length ∧ ∀ x ∈ c, x < 2) (c : Vec) (hc : c ∈ S) :
+    (∀ c' ∈ S, wdot (logOddsWeights (P.map (· + ε)) (P.map (1 - · + ε))) c ≤
+               wdot (logOddsWeights (P.map (· + ε)) (P.map (1 - · + ε))) c') ↔
+    (∀ c' ∈ S, lik (P.map (· + ε)) (P.map (1 - · + ε)) c' ≤
+               lik (P.map (· + ε)) (P.map (1 - · + ε)) c) := by
+  apply minWeight_iff_mostLikely _ _ _ _ (by simp) S (by simpa using hS) c hc
+  · intro x hx
+    obtain ⟨p, hp, rfl⟩ := List.mem_map.mp hx
+    have := (hP p hp).1
+    linarith
+  · intro x hx
+    obtain ⟨p, hp, rfl⟩ := List.mem_map.mp hx
+    have := (hP p hp).2
+    linarith
+
 /-- marginals below 1/2 give strictly positive matching weights -/
 theorem weights_positive (p : ℝ) (h0 : 0 < p) (h1 : p < 1 / 2) : 0 < -Real.log (p / (1 - p)) :=
   logOdds_pos p h0 h1
